@@ -210,16 +210,22 @@ def run_case(c) -> dict:
                 f[f"C14:token-without-kid-accepted-by-multi-key-set:{where}"] = f"set of {len(c['keys'])} keys accepted a token that names no kid"
         return f
     # ---- produce with joserfc
+    from joserfc import rfc7797
+    unenc = kind == "jws" and ser != "general" and c["seed"] % 3 == 0     # RFC 7797 unencoded payload: separate code paths
+    if unenc:
+        where += ":b64=false"
     try:
         if kind == "jws":
-            prot, unprot, _ = place(c, {"alg": alg}, hk)
+            prot, unprot, _ = place(c, {"alg": alg, "b64": False, "crit": ["b64"]} if unenc else {"alg": alg}, hk)
+            mod = rfc7797 if unenc else jws
             if ser == "compact":
-                tok = jws.serialize_compact(prot, payload, keyarg(privset), algorithms=ALL_JWS)
+                tok = mod.serialize_compact(prot, payload, keyarg(privset), algorithms=ALL_JWS)
             else:
                 m = {"protected": prot}
                 if unprot:
                     m["header"] = unprot
-                tok = jws.serialize_json(m if ser == "flattened" else [m], payload, keyarg(privset), algorithms=ALL_JWS)
+                tok = mod.serialize_json(m, payload, keyarg(privset), algorithms=ALL_JWS) if ser == "flattened" else \
+                    jws.serialize_json([m], payload, keyarg(privset), algorithms=ALL_JWS)
         else:
             prot, unprot, rec = place(c, {"alg": alg, "enc": enc}, hk)
             sk = (KeySet([sender_priv]) if use_sset else sender_priv) if is1pu else None
@@ -272,8 +278,8 @@ def run_case(c) -> dict:
             continue
         try:
             if kind == "jws":
-                r = (rjws.verify_compact(tok, lambda h: rk.public_of(rkey) if rkey["kty"] != "oct" else rkey) if isinstance(tok, str)
-                     else rjws.verify_json(tok, lambda h: rk.public_of(rkey) if rkey["kty"] != "oct" else rkey))
+                r = (rjws.verify_compact(tok, lambda h: rk.public_of(rkey) if rkey["kty"] != "oct" else rkey, rfc7797=unenc) if isinstance(tok, str)
+                     else rjws.verify_json(tok, lambda h: rk.public_of(rkey) if rkey["kty"] != "oct" else rkey, rfc7797=unenc))
                 ok = r["payload"] == payload
             else:
                 r = (rjwe.decrypt_compact(tok, lambda h: rkey, rk.public_of(sender_ref)) if isinstance(tok, str)
@@ -288,7 +294,8 @@ def run_case(c) -> dict:
     # and joserfc's public set consumes it
     try:
         if kind == "jws":
-            got = (jws.deserialize_compact(tok, pubset, algorithms=ALL_JWS) if isinstance(tok, str) else jws.deserialize_json(copy.deepcopy(tok), pubset, algorithms=ALL_JWS)).payload
+            mod = rfc7797 if unenc else jws
+            got = (mod.deserialize_compact(tok, pubset, algorithms=ALL_JWS) if isinstance(tok, str) else mod.deserialize_json(copy.deepcopy(tok), pubset, algorithms=ALL_JWS)).payload
         else:
             sk = (KeySet([decoy_sender, sender_pub]) if use_sset else sender_pub) if is1pu else None
             got = (jwe.decrypt_compact(tok, privset, algorithms=jweplan.ALL_NAMES, sender_key=sk) if isinstance(tok, str)
